@@ -110,3 +110,5 @@
 (declare-fun sigTParams (Ref) Ref)
 (declare-fun tplLen (Ref) Int)
 (declare-fun sigParams (Ref) Ref) (declare-fun sigResults (Ref) Ref) (declare-fun sigVariadic (Ref) Bool) (declare-fun sigRecv (Ref) Ref)
+(declare-fun IsIterType (Iface) Bool)
+(declare-fun yieldFuncRewritten (Ref Ref World) World)
